@@ -426,7 +426,7 @@ def msm_claims(m, ident, A, B, P, nb, lay, option):
     c = eq_int(g, expn) if g is not None else None
     claims.append((t['NCELL'], c if c is not None else "NCell missing or of wrong type"))
     ppin, punp = prn_tables(cons)
-    repo_sig = PRNSIGMAP[cons][1]
+    repo_sig = concrete.repo_maps(cons)[1]
     spin, sunp = sig_tables(cons, option, repo_sig)
 
     def prn_ok(lbl, a):
@@ -527,7 +527,14 @@ def discharge(eng, claims, res, on_cex, label=""):
     if not sem:
         return
     allc = z3.And(*[c for _, c in sem])
-    r = eng.check3(z3.Not(allc))
+    # one batched query first (cheap when everything holds); it gets a short time limit and a give-up is not counted: the claims are then
+    # decided one by one with the full limit
+    eng.solver.set("timeout", min(20000, eng.query_timeout_ms))
+    try:
+        r = str(eng.solver.check(z3.Not(allc)))
+    finally:
+        eng.solver.set("timeout", eng.query_timeout_ms)
+    eng.nchecks += 1
     if r == 'unsat':
         res['discharged'] += len(sem)
         return
